@@ -11,6 +11,7 @@ def check(ctx):
     core.cg_relation_lifting(ctx, "C02")
     core.cg_transactions_exclusive(ctx, "C02")
     core3.exclusive_with(ctx, "C02")
+    core3.ctrl_path_builder(ctx, "C02")  # incl. per-module ids: bodies of different modules are never exclusive
     core.cg_symmetric_insertion(ctx, "C02")
     core2.sched_run_definitions(ctx, "C02", want_equiv=False)
     core2.mgr_scheduler_per_component(ctx, "C02")
